@@ -3,7 +3,8 @@ import urllib.parse
 
 from . import refmodel as R
 from .kernel import TICK
-from .oracles import V, EPS, _short, _key
+from .oracles import V, _short, _key
+from . import oracles as _O
 
 FAIL_MODES = ('refuse', 'status', 'garbage', 'empty', 'non_open', 'silent',
               'bad_utf8')
@@ -200,7 +201,7 @@ def check_lifecycle(h, f=None):
                                  h.final['blocked'][:3])))
             continue
         d = discs[0]
-        occurred = [cz for cz in causes if cz['t'] <= d['t'] + EPS]
+        occurred = [cz for cz in causes if cz['t'] <= d['t'] + _O.EPS]
         allowed = set()
         for cz in occurred:
             allowed |= cz['reasons']
@@ -220,7 +221,7 @@ def check_lifecycle(h, f=None):
                               for cz in occurred])))
         else:
             first = min(occurred, key=lambda x: x['t'])
-            margin = 24 * TICK
+            margin = 24 * TICK + (_O.EPS - _O.EPS0)
             if first['binding'] and all(
                     x is first or x['t'] > first['t'] + margin
                     for x in causes) and d['arg'] not in first['reasons'] \
@@ -235,7 +236,7 @@ def check_lifecycle(h, f=None):
         later = [e for e in c['events'] if e['seq'] > d['seq'] and
                  e['ev'] != 'disconnect']
         late_msgs = [e for e in later if e['ev'] == 'message' and
-                     e['t'] > d['t'] + EPS and
+                     e['t'] > d['t'] + _O.EPS and
                      e.get('spawn_seq', 0) > d['seq']]
         if late_msgs:
             out.append(V('after-disconnect', '%s|event-after-disconnect' %
@@ -508,7 +509,7 @@ def check_conduct(h, f=None):
             ts = {o['seq_start']: o['t_start'] for o in sends}
             seqs = [x[0] for x in sorted(ordered, key=lambda x: x[1])]
             tt = [ts[q] for q in seqs]
-            if any(tt[i] > tt[i + 1] + EPS for i in range(len(tt) - 1)):
+            if any(tt[i] > tt[i + 1] + _O.EPS for i in range(len(tt) - 1)):
                 out.append(V('send-order', '%s|sends-reordered' % kind,
                              'application sends arrived out of order'))
         # ---- upgrade only via the probe handshake --------------------------------
@@ -516,7 +517,8 @@ def check_conduct(h, f=None):
         # ---- silence detection ----------------------------------------------------
         if s.t_silent is not None and not discs:
             grace = 5.0
-            deadline = s.t_silent + I + T + grace + rt + 1.0
+            deadline = s.t_silent + I + T + grace + rt + 1.0 + \
+                (_O.EPS - _O.EPS0)
             # the client measures from the last thing it received
             if deadline < f.end:
                 out.append(V('silence-detected', '%s|silence-not-detected|%s'
